@@ -36,14 +36,14 @@ ASSUMPTIONS = [
     "step names that end in a digit and instantiate a component: either a correct compilation or a located "
     "DSLInvalidError is accepted (the model accepts such names, FlowIR reserves trailing digits for replicas)",
     "no replicate/aggregate attributes, no key outputs / interface, no input./data. entry parameters",
-    "a compile that runs longer than 6 s for a <=8-step namespace is reported as a hang",
+    "a compile that runs that burns more than 5 s (and again 10 s) of CPU time for a <=8-step namespace is reported as a hang",
     "'lists the offending locations': every underlying error of DSLInvalidError must be a DSLInvalidFieldError; an "
     "error list in which no entry has a non-empty location is a violation; for mutations confined to one template "
     "some reported location must lie inside that template (['workflows'|'components', index, ...])",
 ]
 TIERS = {"quick": {"shards": 8, "budget": 100}, "thorough": {"shards": 16, "budget": 1500}}
 
-TIME_LIMIT_S = 6
+TIME_LIMIT_S = 5        # CPU seconds (a compile + validate of these namespaces takes ~0.02 s)
 # mutation kinds whose site names one template: some reported location must lie inside that template
 SITE_KINDS = {"duplicate-execute-entry": "workflows", "method-inside-brackets": "workflows",
               "missing-argument-without-default": "workflows", "reference-to-non-sibling": "workflows",
@@ -58,6 +58,9 @@ class _Hang(BaseException):
 
 
 class _TimeLimit:
+    """Raises _Hang in the main thread after `seconds` of *CPU time* of this process (ITIMER_VIRTUAL): an endless
+    loop burns CPU, a process that is merely descheduled on a loaded machine does not."""
+
     def __init__(self, seconds):
         self.seconds = seconds
 
@@ -65,12 +68,12 @@ class _TimeLimit:
         raise _Hang()
 
     def __enter__(self):
-        self.old = signal.signal(signal.SIGALRM, self._fire)
-        signal.setitimer(signal.ITIMER_REAL, self.seconds)
+        self.old = signal.signal(signal.SIGVTALRM, self._fire)
+        signal.setitimer(signal.ITIMER_VIRTUAL, self.seconds)
 
     def __exit__(self, *a):
-        signal.setitimer(signal.ITIMER_REAL, 0)
-        signal.signal(signal.SIGALRM, self.old)
+        signal.setitimer(signal.ITIMER_VIRTUAL, 0)
+        signal.signal(signal.SIGVTALRM, self.old)
         return False
 
 
@@ -85,26 +88,31 @@ def _short(doc, limit=1800):
     return s if len(s) <= limit else s[:limit] + "..."
 
 
-def compile_doc(doc, override):
-    """-> ('ok', FlowIRConcrete) | ('model', ValidationError) | ('dsl', DSLInvalidError) | ('hang', None) |
-    ('exc', exception)"""
+def compile_doc(doc, override, validate=False):
+    """-> ('ok', FlowIRConcrete[, validation errors]) | ('model', ValidationError) | ('dsl', DSLInvalidError) |
+    ('hang', None) | ('exc', exception). A hang is confirmed by a second attempt with twice the CPU budget."""
     import pydantic
     import experiment.model.errors as E
     import experiment.model.frontends.dsl as D
-    try:
-        with _TimeLimit(TIME_LIMIT_S):
-            try:
-                ns = D.Namespace(**copy.deepcopy(doc))
-            except pydantic.ValidationError as e:
-                return "model", e
-            try:
-                return "ok", D.namespace_to_flowir(ns, override_entrypoint_args=copy.deepcopy(override) or None)
-            except E.DSLInvalidError as e:
-                return "dsl", e
-            except Exception as e:
-                return "exc", e
-    except _Hang:
-        return "hang", None
+    for attempt in (1, 2):
+        try:
+            with _TimeLimit(TIME_LIMIT_S * attempt):
+                try:
+                    ns = D.Namespace(**copy.deepcopy(doc))
+                except pydantic.ValidationError as e:
+                    return "model", e
+                try:
+                    res = D.namespace_to_flowir(ns, override_entrypoint_args=copy.deepcopy(override) or None)
+                    if validate:
+                        return "ok", (res, res.validate())
+                    return "ok", res
+                except E.DSLInvalidError as e:
+                    return "dsl", e
+                except Exception as e:
+                    return "exc", e
+        except _Hang:
+            continue
+    return "hang", None
 
 
 _ROMAN = re.compile(r"-[IVX]+$")
@@ -145,7 +153,7 @@ def check_valid(case, ctx: Ctx):
     if "valid-namespace-hangs" in ctx.excluded and not ctx.replaying:
         ctx.rec.excluded["valid-namespace-hangs"] += 1
         return
-    kind, res = compile_doc(doc, case.get("override"))
+    kind, res = compile_doc(doc, case.get("override"), validate=True)
     where = "leaf steps at %s" % case.get("where")
     if kind == "model":
         raise Violation("valid-namespace-rejected-by-model", "%s\n%s" % (str(res)[:600], where))
@@ -158,19 +166,18 @@ def check_valid(case, ctx: Ctx):
             return
         raise Violation("valid-namespace-rejected", "DSLInvalidError %s\n%s" % (str(res.errors())[:900], where))
     if kind == "hang":
-        return _record_unshrunk(ctx, "valid", Violation("valid-namespace-hangs", "no result after %d s\n%s" % (
+        return _record_unshrunk(ctx, "valid", Violation("valid-namespace-hangs", "no result after %d s of CPU time\n%s" % (
             TIME_LIMIT_S, where), case=case))
     if kind == "exc":
         cls = step_name_class(doc)
         raise Violation("valid-namespace-raises-" + type(res).__name__ + ("@" + cls if cls else ""), "%s: %s\n%s" % (
             type(res).__name__, str(res)[:600], where))
+    res, errors = res
     raw = res.raw()
     try:
         M.compare(flat, raw.get("components", []), _parse_reference)
     except M.Mismatch as m:
         raise Violation(m.sig, "%s\n%s" % (m.message, where))
-    with _TimeLimit(TIME_LIMIT_S):
-        errors = res.validate()
     if errors:
         raise Violation("compiled-flowir-fails-validation", "%s\n%s" % ([str(e)[:300] for e in errors[:4]], where))
     ctx.rec.label(*["v:" + l for l in meta["labels"]])
